@@ -109,7 +109,7 @@ static std::vector<ItemV> parse_items(const std::string& s)
     {
         ItemV it;
         it.kind = tok[0];
-        if (it.kind == 'L')
+        if (it.kind == 'L' || it.kind == 'M')
         {
             auto dot = tok.find('.');
             it.id = std::stoi(tok.substr(1, dot - 1));
@@ -143,6 +143,25 @@ struct Lazy
     }
 };
 
+// a callable whose call operator is not const, and which could also be printed like any value: it is a callable,
+// so it has to be called (once) - not printed
+struct MutLazy
+{
+    int id;
+    std::string text;
+    int calls = 0;
+    std::string operator()()
+    {
+        ++calls;
+        g_events.push_back("lazy " + std::to_string(id));
+        return text;
+    }
+};
+static std::ostream& operator<<(std::ostream& os, const MutLazy&)
+{
+    return os << "<a callable that was printed instead of called>";
+}
+
 // one insertion, dispatching on the item's type; F receives the result of `<<`
 template <typename S, typename Cont>
 static void insert_one(S&& s, const ItemV& it, Cont cont)
@@ -166,6 +185,9 @@ static void insert_one(S&& s, const ItemV& it, Cont cont)
         break;
     case 'x':
         cont(std::forward<S>(s) << SetsFail{});
+        break;
+    case 'M':
+        cont(std::forward<S>(s) << MutLazy{ it.id, it.text });
         break;
     case 'L':
         if (it.id % 2)
@@ -225,7 +247,7 @@ static void statement(const char* tag, const std::vector<ItemV>& items, const st
         return;
     }
     const std::string& named = named0;
-    auto make = [&]() {
+    auto make = [&](const char* tag) {
         if constexpr (Sev == sl::trace)
             return L::trace(tag);
         else if constexpr (Sev == sl::debug)
@@ -241,15 +263,26 @@ static void statement(const char* tag, const std::vector<ItemV>& items, const st
     };
     if (named == "e")
     {
-        rchain(make(), items, 0, items.size(), [](auto&&) {});
+        rchain(make(tag), items, 0, items.size(), [](auto&&) {});
         return;
     }
     std::size_t k = std::stoul(named.substr(1));
     if (k > items.size())
         k = items.size();
     // auto l = logger::sev(tag) << first k items;   l << next; l << next; ...   } <- l destroyed
-    rchain(make(), items, 0, k, [&](auto&& init) {
+    // The tag is handed over in storage of the caller that is overwritten while the named stream is still alive:
+    // the record carries the tag the statement was given.
+    std::vector<char> tagbuf;
+    const char* tagp = tag;
+    if (tag != nullptr)
+    {
+        tagbuf.assign(tag, tag + std::strlen(tag) + 1);
+        tagp = tagbuf.data();
+    }
+    rchain(make(tagp), items, 0, k, [&](auto&& init) {
         auto l = std::move(init);
+        if (tag != nullptr)
+            std::fill(tagbuf.begin(), tagbuf.end() - 1, '#');
         // (the temporaries of the initialiser are still alive here in this emulation; they are all
         //  moved-from, so the order in which they die relative to the named stream is not observable
         //  unless a moved-from temporary logs - which is exactly what must not happen)
